@@ -376,6 +376,101 @@ def corner_networks(ck, i):
         ck.count('corner_networks.established')
 
 
+UNKNOWN_TS_TYPES = (9, 10, 0, 1, 6, 200, 255)
+
+
+def unknown_ts_types(ck, rng, i):
+    """Selectors of a TS type the daemon does not implement (9 = TS_FC_ADDR_RANGE, unassigned values) whose octets READ like addresses inside the policy.
+    Such a selector denotes no IP packets: alone it matches no policy (nothing installed); next to a real selector it adds nothing (what is installed and answered is
+    an IP selector inside the policy). Both roles, IPv6 and IPv4 policies; type 8 / 7 with the same octets is the control and must be served."""
+    v6pol = i % 4 != 3
+    role = ('responder', 'initiator')[(i // 4) % 2]
+    tst = UNKNOWN_TS_TYPES[(i // 8) % len(UNKNOWN_TS_TYPES)]
+    shape = ('both-unknown', 'tsi-unknown', 'tsr-unknown', 'unknown-then-real', 'real-then-unknown', 'control')[i % 6]
+    a_net, b_net = ('2001:db8:a::/64', '2001:db8:b::/64') if v6pol else ('10.1.0.0/24', '10.2.0.0/24')
+    kw = dict(mode='tunnel', a_subnet=a_net, b_subnet=b_net, ip_proto='any', a_port=0, b_port=0, v6=bool(i % 3 == 0))
+    sim, a, b = S.make_pair(ck.seed * 41 + i, **kw)
+    sim.case = {'family': 'unknown-ts-type', 'role': role, 'ts_type': tst, 'shape': shape, 'conf': kw}
+    an, bn = ipaddress.ip_network(a_net), ipaddress.ip_network(b_net)
+    real = 8 if v6pol else 7
+
+    def inside(net, t):
+        # the real selectors live in the first 64 addresses of the network, the ones of the unknown type from the 128th on: what gets installed tells which one was used
+        lo = int(net[0]) + (rng.randrange(1, 40) if t == real else rng.randrange(128, 200))
+        n = 16 if net.version == 6 else 4
+        return {'tstype': t, 'ipproto': 0, 'sport': 0, 'eport': 65535, 'saddr': lo.to_bytes(n, 'big'), 'eaddr': (lo + rng.randrange(0, 20)).to_bytes(n, 'big')}
+
+    def lists(neti, netr):
+        ri, rr, ui, ur = inside(neti, real), inside(netr, real), inside(neti, tst), inside(netr, tst)
+        return {'both-unknown': ([ui], [ur]), 'tsi-unknown': ([ui], [rr]), 'tsr-unknown': ([ri], [ur]), 'unknown-then-real': ([ui, ri], [ur, rr]),
+                'real-then-unknown': ([ri, ui], [rr, ur]), 'control': ([ri], [rr])}[shape]
+    victim = b if role == 'responder' else a
+    A, B = str(a.addrs[0]), str(b.addrs[0])
+    child = [{'type': 1, 'id': 12, 'keylen': 256}, {'type': 3, 'id': 12, 'keylen': None}, {'type': 5, 'id': 0, 'keylen': None}]
+    answered_ts = None
+    if role == 'responder':
+        p = party.RefParty(A, B, rng)
+        trs = [{'type': 1, 'id': 12, 'keylen': 256}, {'type': 3, 'id': 12, 'keylen': None}, {'type': 2, 'id': 5, 'keylen': None}, {'type': 4, 'id': 19, 'keylen': None}]
+        sim.inject(b, A, B, p.init_request(trs, 19))
+        if not sim.net or not p.take_init_response(sim.net.pop(0).data):
+            ck.count('unknown_ts.setup_failed')
+            return
+        tsi, tsr = lists(an, bn)
+        sim.inject(b, A, B, p.auth_request(c02.ID_A[0], c02.ID_A[1], 2, p.auth_psk(c02.PSK_A, *c02.ID_A), child, 3, tsi, tsr, False))
+        if sim.net:
+            try:
+                _h, inner, _i = p.open(sim.net.pop(0).data)
+                answered_ts = [x['selectors'] for x in inner if x['type'] in (codec.TSI, codec.TSR)]
+            except Exception:
+                pass
+    else:
+        sim.acquire(a, 0)
+        req = sim.net.pop(0).data
+        p = party.RefParty(B, A, rng)
+        sim.inject(a, B, A, p.respond_init(req))
+        if not sim.net:
+            ck.count('unknown_ts.setup_failed')
+            return
+        areq = sim.net.pop(0).data
+        tsi, tsr = lists(an, bn)
+        sim.inject(a, B, A, p.respond_auth(areq, c02.ID_B[0], c02.ID_B[1], 2, p.auth_psk(c02.PSK_B, *c02.ID_B), force_ts=(tsi, tsr)))
+    new = [r for r in victim.kernel.requests if r['msg'] and r['msg']['name'] == 'NEWSA']
+    ck.count(f'unknown_ts.{role}.{shape}')
+    ck.seen('unknown_ts.cases', (role, tst, shape, v6pol))
+    ck.nontrivial(('unknown-ts', role, tst, shape, v6pol, bool(new)))
+    det = {'tsi': tsi, 'tsr': tsr, 'newsa': len(new), 'answered_ts': answered_ts}
+    if shape == 'control':
+        if len(new) != 2:
+            ck.violation(f'request-with-ip-selectors-inside-the-policy-not-served:{role}', det, sim.case)
+        else:
+            ck.count('unknown_ts.controls_served')
+        return
+    if shape in ('both-unknown', 'tsi-unknown', 'tsr-unknown'):
+        if new:
+            ck.violation(f'ipsec-sa-installed-for-a-selector-of-a-ts-type-that-denotes-no-ip-packets:{role}:{shape}', det, sim.case)
+        else:
+            ck.count('unknown_ts.nothing_installed')
+        return
+    # a real selector next to the unknown one: nothing, or the real one
+    if not new:
+        ck.count('unknown_ts.mixed_list_refused')
+        return
+    ck.count('unknown_ts.mixed_list_served')
+    import socket as _so
+    unknown_starts = [ipaddress.ip_address(x['saddr']) for l_ in (tsi, tsr) for x in l_ if x['tstype'] != real]
+    for r in new:
+        ks = r['msg']['sa']['sel']
+        if ks['family'] != (_so.AF_INET6 if v6pol else _so.AF_INET):
+            ck.violation('kernel-selector-of-another-family-than-the-policy:unknown-ts-type', {'kernel_selector': ks}, sim.case)
+            return
+        nets = [ipaddress.ip_network((ks['saddr'], ks['prefixlen_s']), strict=False), ipaddress.ip_network((ks['daddr'], ks['prefixlen_d']), strict=False)]
+        if any(u in n_ for u in unknown_starts for n_ in nets):
+            ck.violation(f'ipsec-sa-installed-for-a-selector-of-a-ts-type-that-denotes-no-ip-packets:{role}:{shape}', dict(det, kernel_selector=ks), sim.case)
+            return
+    if answered_ts and any(x['tstype'] != real for l_ in answered_ts for x in l_):
+        ck.violation('response-echoes-a-selector-of-an-unknown-ts-type', det, sim.case)
+
+
 def initiator_case(ck, rng, vi, any_proto=False):
     mode = 'transport' if vi % 2 else 'tunnel'
     # (second pass: an entry that combines protocol ANY with a port, which the daemon installs as written: the port is part of the offer all the same)
@@ -582,7 +677,7 @@ REKEY_VARIANTS = ['equal', 'equal-selectors-but-the-other-mode', 'wider-addresse
                   'list:equal+wider', 'list:wider+equal', 'tsi-equal-tsr-wider', 'tsi-wider-tsr-equal']
 
 
-def crafted_rekey_case(ck, rng, i):
+def crafted_rekey_case(ck, rng, i, busy=None):
     """(5b) an independent initiator (valid keys) creates a CHILD_SA NARROWER than the responder's policy, then asks to rekey it with other selectors."""
     variant = REKEY_VARIANTS[i % len(REKEY_VARIANTS)]
     mode = 'tunnel' if (i // len(REKEY_VARIANTS)) % 2 else 'transport'
@@ -592,7 +687,7 @@ def crafted_rekey_case(ck, rng, i):
     cb['conn']['protect'] = [pr]
     sim = S.Sim(ck.seed * 23 + i)
     b = sim.add('B', [S.B4], cb)
-    sim.case = {'family': 'crafted-rekey', 'variant': variant, 'mode': mode}
+    sim.case = {'family': 'crafted-rekey', 'variant': variant, 'mode': mode, 'responder_has_its_own_request_outstanding': busy}
     p = party.RefParty(S.A4, S.B4, rng)
     trs = [{'type': 1, 'id': 12, 'keylen': 256}, {'type': 3, 'id': 12, 'keylen': None}, {'type': 2, 'id': 5, 'keylen': None}, {'type': 4, 'id': 19, 'keylen': None}]
     sim.inject(b, S.A4, S.B4, p.init_request(trs, 19))
@@ -634,6 +729,30 @@ def crafted_rekey_case(ck, rng, i):
          'list:equal+wider': ([old_i, wide(old_i, addr=True)], [old_r, wide(old_r, addr=True)]), 'list:wider+equal': ([wide(old_i, addr=True), old_i], [wide(old_r, addr=True), old_r]),
          'tsi-equal-tsr-wider': ([old_i], [wide(old_r, addr=True)]), 'tsi-wider-tsr-equal': ([wide(old_i, addr=True)], [old_r])}
     tsi, tsr = W[variant]
+    n_first, mid = 2, 2
+    if busy:
+        # the responder is in the middle of an exchange of its own about ANOTHER CHILD_SA (its DELETE / rekey request is in flight, unanswered) when the request arrives
+        spi2 = bytes(rng.randrange(256) for _ in range(4))
+        pls2 = [{'type': codec.SA, 'critical': False, 'proposals': [{'num': 1, 'proto': 3, 'spi': spi2, 'transforms': child}]},
+                {'type': codec.NONCE, 'critical': False, 'data': bytes(rng.randrange(256) for _ in range(32))},
+                {'type': codec.TSI, 'critical': False, 'selectors': [sel('10.1.77.1', '10.1.77.9', 0, 65535, 17)]},
+                {'type': codec.TSR, 'critical': False, 'selectors': [sel('10.2.77.1', '10.2.77.9', 53, 53, 17)]}]
+        if mode == 'transport':
+            pls2.append({'type': codec.NOTIFY, 'critical': False, 'proto': 0, 'spi': b'', 'ntype': 16391, 'data': b''})
+        sim.inject(b, S.A4, S.B4, p.seal(36, 2, pls2, response=False))
+        sim.net.clear()
+        ike = next((x for x in b.ctl.ike_sas if x.state.name == 'ESTABLISHED'), None)
+        if ike is None or len(ike.child_sas) != 2:
+            ck.count('crafted_rekey.second_child_not_created')
+            return
+        sim.expire(b, bytes(ike.child_sas[1].inbound_spi), busy == 'delete', daddr=S.B4, proto=50)
+        sim.net.clear()
+        if ike.state.name != {'delete': 'DEL_CHILD_REQ_SENT', 'rekey': 'REK_CHILD_REQ_SENT'}[busy]:
+            ck.count('crafted_rekey.busy_state_not_reached')
+            return
+        ck.count('crafted_rekey.requests_arriving_while_the_responder_waits_for_an_answer_of_its_own')
+        ck.seen('crafted_rekey.busy_states', (ike.state.name, variant))
+        n_first, mid = 4, 3
     new_spi = bytes(rng.randrange(256) for _ in range(4))
     pls = [{'type': codec.NOTIFY, 'critical': False, 'proto': 3, 'spi': p.child_spi, 'ntype': 16393, 'data': b''},
            {'type': codec.SA, 'critical': False, 'proposals': [{'num': 1, 'proto': 3, 'spi': new_spi, 'transforms': child}]},
@@ -641,18 +760,18 @@ def crafted_rekey_case(ck, rng, i):
            {'type': codec.TSI, 'critical': False, 'selectors': tsi}, {'type': codec.TSR, 'critical': False, 'selectors': tsr}]
     if (mode == 'transport') != (variant == 'equal-selectors-but-the-other-mode'):
         pls.append({'type': codec.NOTIFY, 'critical': False, 'proto': 0, 'spi': b'', 'ntype': 16391, 'data': b''})
-    sim.inject(b, S.A4, S.B4, p.seal(36, 2, pls, response=False))
+    sim.inject(b, S.A4, S.B4, p.seal(36, mid, pls, response=False))
     ck.count(f'crafted_rekey.{variant}')
     if not sim.net:
         ck.violation('responder-did-not-answer-a-rekey-request', {}, sim.case)
         return
     _h, inner, _i = p.open(sim.net.pop(0).data)
     nts = [x['ntype'] for x in inner if x['type'] == codec.NOTIFY]
-    new = [r for r in b.kernel.requests if r['msg'] and r['msg']['name'] == 'NEWSA'][2:]
+    new = [r for r in b.kernel.requests if r['msg'] and r['msg']['name'] == 'NEWSA'][n_first:]
     atsi = next((x for x in inner if x['type'] == codec.TSI), None)
     atsr = next((x for x in inner if x['type'] == codec.TSR), None)
     outcome = 'installed' if new else 'ts-unacceptable' if 38 in nts else f'other:{nts}'
-    ck.nontrivial(('crafted-rekey', variant, mode, outcome))
+    ck.nontrivial(('crafted-rekey', variant, mode, outcome, busy))
     ck.seen('crafted_rekey.outcomes', (variant, outcome))
     if variant == 'equal' and len(new) != 2:
         ck.violation('rekey-with-the-selectors-of-the-replaced-sa-refused', {'notifies': nts}, sim.case)
@@ -703,6 +822,9 @@ def run(ck):
     for i in range(48 if not thorough else 960):
         if ck.mine(i):
             corner_networks(ck, i)
+    for i in range(8 * len(UNKNOWN_TS_TYPES) * 2 if not thorough else 8 * len(UNKNOWN_TS_TYPES) * 40):
+        if ck.mine(i + 1):
+            unknown_ts_types(ck, ck.rng('unknown-ts', i), i)
     # connections that share one protect entry object (a YAML alias) without subnets: each peer's request for ITS endpoints is accepted and installed with them
     from vf.checks import c15 as c15_
     for i in range(24 if not thorough else 480):
@@ -717,12 +839,17 @@ def run(ck):
     for i in range(4 * len(REKEY_VARIANTS) if not thorough else 200 * len(REKEY_VARIANTS)):
         if ck.mine(i):
             crafted_rekey_case(ck, ck.rng('crafted-rekey', i), i)
+    for i in range(4 * len(REKEY_VARIANTS) if not thorough else 200 * len(REKEY_VARIANTS)):
+        if ck.mine(i + 3):
+            crafted_rekey_case(ck, ck.rng('crafted-rekey-busy', i), i, busy=('delete', 'rekey')[(i // (2 * len(REKEY_VARIANTS))) % 2])
 
 
 def verdict(ck):
     c = ck.counters
     ck.floor('daemons whose connections share one protect entry object, every connection served with its own endpoints', c['shared_entries.all_connections_served'], 18)
     ck.floor('tunnels between corner networks (other family than the gateways, all-zero networks, /31, /127 ...) established and compared', c['corner_networks.established'], 36)
+    ck.floor('requests / responses with selectors of an unimplemented TS type after which nothing was installed', c['unknown_ts.nothing_installed'], 50)
+    ck.floor('... and their controls (same octets, TS type 7 / 8) served', c['unknown_ts.controls_served'], 12)
     ck.floor('exhaustive selector pairs', c['subset.pairs'], 3 * 32400)
     ck.floor('network round trips', c['network.roundtrips'], 2000)
     ck.floor('responder installs judged', c['responder.installed'], 60)
@@ -731,6 +858,7 @@ def verdict(ck):
     ck.floor('kernel selectors checked', c['responder.kernel_selectors_checked'], 100)
     ck.floor('initiator response variants', len(ck.sets['initiator.labels']), 30)
     ck.floor('crafted rekey requests judged', c['crafted_rekey.installed'] + c['crafted_rekey.refused'], 40)
+    ck.floor('crafted rekey requests arriving while the responder waits for the answer to its own DELETE / rekey of another CHILD_SA', c['crafted_rekey.requests_arriving_while_the_responder_waits_for_an_answer_of_its_own'], 40)
     ck.floor('crafted rekey requests with equal selectors installed', c['crafted_rekey.equal'], 4)
     ck.floor('initiator checks on later exchanges (after a completed rekey)', c['later.runs'], 30)
     ck.floor('later-exchange variants', len(ck.sets['later.variants']), 9)
